@@ -465,11 +465,24 @@ def check_frozen(c, st):
     got = outcome(ior)
     if got != ('exc', 'TypeError') or dict(fd) != snap:
         return ('frozen:mutator-allowed:|=', '|= -> %r' % (got,))
+    def fresh_hash(mapping):
+        return hash(du.FrozenDict(sorted(dict(mapping).items(), key=repr)))
     if unhashable:
         for attempt in range(3):
             got = outcome(lambda: hash(fd))
             if got != ('exc', 'FrozenHashError'):
                 return ('frozen:hash-unhashable', 'hash() attempt %d -> %r' % (attempt, got))
+        # derived values whose unhashable entry has been replaced must hash like any equal FrozenDict
+        for how, fn in (('updated(**kw)', lambda: fd.updated(u=1)), ('updated(mapping)', lambda: fd.updated({'u': 1})),
+                        ('FrozenDict(fd, **kw)', lambda: du.FrozenDict(fd, u=1))):
+            got = outcome(fn)
+            st.monitor_evals += 1
+            if got[0] != 'ok' or dict(got[1]) != dict(snap, u=1):
+                return ('frozen:derived:' + how.split('(')[0], '%s -> %r' % (how, got))
+            h = outcome(lambda: hash(got[1]))
+            if h != ('ok', fresh_hash(got[1])):
+                return ('frozen:derived-hash-stale', 'hash(%s) -> %r although the value %r is hashable'
+                        % (how, h, dict(got[1])))
         st.count('frozen_unhashable')
         return None
     perm = list(items)
@@ -485,6 +498,23 @@ def check_frozen(c, st):
     want = dict(snap, new=1, other=2)
     if up[0] != 'ok' or dict(up[1]) != want or type(up[1]) is not type(fd) or dict(fd) != snap:
         return ('frozen:updated', 'updated() -> %r (original now %r)' % (up, dict(fd)))
+    # every way of deriving a new FrozenDict from an already-hashed one: equal content <=> equal hash
+    for how, fn, wantd in (('updated(mapping, **kw)', lambda: fd.updated({'new': 1}, other=2), want),
+                           ('updated(**kw)', lambda: fd.updated(other=2), dict(snap, other=2)),
+                           ('updated(mapping)', lambda: fd.updated({'a': 'changed'}), dict(snap, a='changed')),
+                           ('updated()', lambda: fd.updated(), dict(snap)),
+                           ('FrozenDict(fd)', lambda: du.FrozenDict(fd), dict(snap)),
+                           ('FrozenDict(fd, **kw)', lambda: du.FrozenDict(fd, other=2), dict(snap, other=2)),
+                           ('fromkeys', lambda: du.FrozenDict.fromkeys(list(snap), 0), dict.fromkeys(list(snap), 0))):
+        got = outcome(fn)
+        st.monitor_evals += 1
+        if got[0] != 'ok' or dict(got[1]) != wantd or type(got[1]) is not type(fd):
+            return ('frozen:derived:' + how.split('(')[0], '%s -> %r, want %r' % (how, got, wantd))
+        if hash(got[1]) != fresh_hash(wantd) or got[1] != du.FrozenDict(wantd):
+            return ('frozen:derived-hash-stale', 'hash(%s) = %r but an equal FrozenDict hashes to %r'
+                    % (how, hash(got[1]), fresh_hash(wantd)))
+        if dict(fd) != snap:
+            return ('frozen:derived:altered-original', '%s changed the original' % how)
     for how, fn in (('copy.copy', lambda: copy.copy(fd)), ('copy.deepcopy', lambda: copy.deepcopy(fd)),
                     ('.copy()', lambda: fd.copy()), ('pickle0', lambda: pickle.loads(pickle.dumps(fd, 0))),
                     ('pickle2', lambda: pickle.loads(pickle.dumps(fd, 2))),
